@@ -49,7 +49,11 @@ def scenario(c: Any, P: dict) -> dict:
         from reactivex import abc as rxabc
 
         class Resource(rxabc.DisposableBase):
-            """the wrapped resource is NOT idempotent by itself: every dispose() call on it is recorded"""
+            """the wrapped resource is NOT idempotent by itself: every dispose() call on it is recorded; in half of the programs it
+            is falsy as well (like an empty CompositeDisposable, which defines __len__)"""
+
+            def __len__(self) -> int:
+                return 0 if P.get("falsy_resource", (nthreads + ncalls) % 2 == 0) else 1
 
             def dispose(self) -> None:
                 runs.append(me())
@@ -119,7 +123,12 @@ def single_thread_histories(res: UnitResult, seed: int, n: int) -> None:
         ts = TestScheduler()
         wrapped_calls = [0]
 
+        falsy_res = r.random() < 0.5
+
         class Resource(rxabc.DisposableBase):
+            def __len__(self) -> int:
+                return 0 if falsy_res else 1
+
             def dispose(self) -> None:
                 wrapped_calls[0] += 1
         sd = ScheduledDisposable(ts, Resource())
